@@ -144,8 +144,8 @@ pub fn special_str_payload(rng: &mut Rng, q: u8, max: usize, newlines: bool) -> 
                 }
             }
             6 => {
-                // any ASCII byte but the quote (incl. control characters)
-                let c = (rng.below(127) + 1) as u8;
+                // any ASCII byte but the quote (incl. NUL, DEL and the other control characters)
+                let c = rng.below(128) as u8;
                 if c != q && (newlines || c != b'\n') {
                     v.push(c);
                 }
